@@ -130,10 +130,14 @@ def roundtrip(entry, text, mode):
             # statement; printed bare, the lexer merges it with the following BY
             tag = ':identifier-order-merged-with-by'
         if not tag and _re.search(r'[(,]\s*\w+\s*:=\s*(insert|update|delete|select|for|with|group)\b', t1, _re.I) \
-                and _re.search(r'\b(create|alter)\s+(index|constraint|annotation|abstract)', t1, _re.I):
+                and _re.search(r'\b(index|constraint|annotation)\b', t1, _re.I):
             # root cause tag: a statement used directly as a named argument of an index /
             # constraint in DDL is printed without the parentheses the grammar requires there
             tag = ':unparenthesized-statement-argument'
+        if not tag and _re.search(r'\.\s*`\d+`', text) and _re.search(r'\.\d+\[is\b', t1):
+            # root cause tag: a pointer whose (quoted) name is all digits is printed bare before a
+            # type intersection, where the grammar reads a tuple index
+            tag = ':numeric-pointer-name-unquoted'
         return ('fail', f'reparse-rejected:{_msgclass(str(e))}{tag}',
                 f'printed text is rejected by the parser: {type(e).__name__}: {e}\n'
                 f'--- printed text ---\n{t1[:1500]}', c1)
